@@ -110,8 +110,16 @@ def gen_library(seed, idx):
         else:
             params = [('GError **', 'error')]
         name = 'foo_err%d' % ei
-        hdr.add(apigen.render_function(name, 'gboolean', params))
-        items.append(('err', name, params, pos))
+        form = rng.choice(['function', 'function', 'callback', 'field'])
+        if form == 'function':
+            hdr.add(apigen.render_function(name, 'gboolean', params))
+        elif form == 'callback':
+            name = 'FooErrFunc%d' % ei
+            hdr.add('typedef gboolean (*%s) (%s);' % (name, ', '.join(apigen.decl(sp, n) for sp, n in params)))
+        else:
+            name = 'FooErrOps%d' % ei
+            hdr.add('typedef struct _%s %s;\nstruct _%s {\n  gint before;\n  gboolean (*slot) (%s);\n};' % (name, name, name, ', '.join(apigen.decl(sp, n) for sp, n in params)))
+        items.append(('err', name, params, pos, form))
     # 4. record with fields
     for ri in range(rng.choice([1, 2])):
         fields = []
@@ -307,16 +315,24 @@ def judge(lib, gir):
                 if p.get('closure') is not None:
                     out.append(('closure-before', '%s: user data *before* the callback became its closure' % name))
         elif kind == 'err':
-            _, name, params, pos = it
-            f = funcs.get(name)
+            _, name, params, pos, form = it
+            if form == 'function':
+                f = funcs.get(name)
+            elif form == 'callback':
+                f = next((n for n in ns.findall('callback') if n.get('c:type') == name), None)
+            else:
+                rec = next((n for n in ns.findall('record') if n.get('c:type') == name), None)
+                fld = next((x for x in rec.findall('field') if x.get('name') == 'slot'), None) if rec is not None else None
+                f = fld.find('callback') if fld is not None else None
             if f is None:
-                out.append(('function-missing', '%s missing' % name))
+                out.append(('function-missing', '%s (%s) missing' % (name, form)))
                 continue
             hits['err'] += 1
+            hits['err:' + form] += 1
             inst, ps = girx.params_of(f)
             names = [p.get('name') for p in ps]
             enames = [p[1] for p in params if p[0] == 'GError **']
-            classes.append('gerror|' + pos)
+            classes.append('gerror|%s|%s' % (pos, form))
             if pos in ('trailing', 'only'):
                 if enames[0] in names or f.get('throws') != '1':
                     out.append(('throws', '%s: trailing GError** -> params %r throws=%r' % (name, names, f.get('throws'))))
